@@ -163,7 +163,14 @@ class OutgoingBallsHandler(BallDeviceStateHandler):
             incoming_skipping_ball.ball_arrived()
             await self._handle_eject_success(eject_request)
             if add_ball_to_target:
-                target.available_balls += 1
+                if self.ball_device.available_balls > 0:
+                    # the ball was supposed to stay here but went on to the target
+                    self.ball_device.available_balls -= 1
+                    target.available_balls += 1
+                elif not self._eject_queue.empty():
+                    # the ball has been claimed for an eject in the meantime. it left already. drop that eject.
+                    self._eject_queue.get_nowait()
+                    self._eject_queue.task_done()
             return True
 
         target.remove_incoming_ball(incoming_ball_at_target)
